@@ -28,7 +28,10 @@ Lemma all_mq_one (P : mq_pkt -> Prop) t m : P m -> all_mq P [OutMq t m].
 Proof. intros H t' m' [E|[]]. inversion E; subst. exact H. Qed.
 
 Lemma sn_send_owned_mq P s o p : all_mq P (outs_of (sn_send_owned s o p)).
-Proof. unfold sn_send_owned. destruct (gw_st s); cbn; first [apply all_mq_nil|apply all_mq_sn]. Qed.
+Proof.
+  unfold sn_send_owned. destruct (gw_st s); try destruct (len (pack p) <=? MaxPacketLen);
+    cbn; first [apply all_mq_nil|apply all_mq_sn].
+Qed.
 
 Lemma sn_send_mq P s p : all_mq P (outs_of (sn_send s p)).
 Proof. apply sn_send_owned_mq. Qed.
@@ -67,14 +70,17 @@ Ltac mq_auto :=
     | match goal with |- all_mq _ (outs_of (if ?x then _ else _)) => destruct x eqn:? end
     | progress cbn [outs_of ok stop fst snd] ].
 
-Lemma connect_start_nd s mq a : all_mq not_disc (outs_of (connect_start s mq a)).
-Proof. unfold connect_start. mq_auto. Qed.
+Lemma connect_auth_done_nd s g mq : all_mq not_disc (outs_of (connect_auth_done s g mq)).
+Proof. unfold connect_auth_done. mq_auto. Qed.
+
+Lemma connect_start_nd s g mq a : all_mq not_disc (outs_of (connect_start s g mq a)).
+Proof. unfold connect_start. mq_auto. apply connect_auth_done_nd. Qed.
 
 Lemma handle_connect_nd cfg s w c pr d cid : all_mq not_disc (outs_of (handle_connect cfg s w c pr d cid)).
 Proof. unfold handle_connect. mq_auto; apply connect_start_nd. Qed.
 
 Lemma connect_auth_nd s g mq a me da : all_mq not_disc (outs_of (connect_auth s g mq a me da)).
-Proof. unfold connect_auth. mq_auto. Qed.
+Proof. unfold connect_auth. mq_auto. apply connect_auth_done_nd. Qed.
 
 Lemma handle_client_publish_nd cfg s dup q r tit tid mid data :
   all_mq not_disc (outs_of (handle_client_publish cfg s dup q r tit tid mid data)).
@@ -128,7 +134,10 @@ Qed.
 
 Lemma fire_nd cfg s k : all_mq not_disc (outs_of (fire cfg s k)).
 Proof.
-  unfold fire. destruct k; mq_auto; destruct k; apply mq_send_mq; reflexivity.
+  unfold fire. destruct k; mq_auto.
+  all: try (match goal with H : sn_send_owned ?a ?b ?c = (_, ?l, _) |- all_mq _ ?l =>
+              let X := fresh in pose proof (sn_send_owned_mq not_disc a b c) as X; rewrite H in X; exact X end).
+  all: try (destruct k; apply mq_send_mq; reflexivity).
 Qed.
 
 Lemma begin_end_mq P s c a b : all_mq P (snd (begin_end s c a b)).
